@@ -1,10 +1,70 @@
 import Driver.Wire
+import Sio.Model.Dispatch
 open Lean (Json)
 namespace Sio.KDispatch
-open Sio.Wire
+open Sio.Wire Sio.Dispatch
 
-/-- stub: replaced by the kernel's line-protocol handler -/
-def step (_ : Unit) (_ : Json) : Except String (Unit × Json) := throw "kernel not implemented"
+/-
+  One op:
+    {"op":"resolve","kind":"server|asyncServer|client|asyncClient","ns":[cp],"ev":[cp],
+     "fn":[[ns,ev],…],"cls":[ns,…],"attr":[[ns,attrName],…]}
+  The registry is what the harness actually registered on the real object (function handlers as
+  (namespace, event) pairs, class-based namespaces by key, attributes of each class object).
+  Answer: the model's result, the argument prefix symbolically and rendered, the attribute name a
+  class slot calls, whether the class considers the event reserved, and the specification table's
+  answer on the eight presence bits of this registry.
+-/
+
+def kindOfString (s : String) : Except String Kind :=
+  if s == "server" then pure .server
+  else if s == "asyncServer" then pure .asyncServer
+  else if s == "client" then pure .client
+  else if s == "asyncClient" then pure .asyncClient
+  else throw s!"bad kind {s}"
+
+def slotName : Slot → String
+  | .fnNsEv => "fnNsEv" | .fnNsStar => "fnNsStar" | .fnStarEv => "fnStarEv"
+  | .fnStarStar => "fnStarStar" | .clsNs => "clsNs" | .clsStar => "clsStar"
+
+def pargName : PArg → String
+  | .ev => "ev" | .ns => "ns"
+
+def resToJson (ns : Ns) (ev : Ev) : Res → Json
+  | .invoke s pre => Json.mkObj [("res", Json.str "invoke"), ("slot", Json.str (slotName s)),
+      ("pre", Json.arr (pre.map (fun p => Json.str (pargName p))).toArray),
+      ("args", Json.arr (pre.map (fun p => strToJson (p.render ns ev))).toArray)]
+  | .dropped s => Json.mkObj [("res", Json.str "dropped"), ("slot", Json.str (slotName s))]
+  | .notHandled => Json.mkObj [("res", Json.str "notHandled")]
+
+def pairsOfJson (j : Json) : Except String (List (Str × Str)) := do
+  let a ← j.getArr?
+  a.toList.mapM (fun e => do
+    let p ← e.getArr?
+    match p.toList with
+    | [x, y] => do let xs ← strOfJson x; let ys ← strOfJson y; pure (xs, ys)
+    | _ => throw "bad pair")
+
+def step (_ : Unit) (j : Json) : Except String (Unit × Json) := do
+  let op ← (← j.getObjVal? "op").getStr?
+  if op == "resolve" then
+    let k ← kindOfString (← (← j.getObjVal? "kind").getStr?)
+    let ns ← strOfJson (← j.getObjVal? "ns")
+    let ev ← strOfJson (← j.getObjVal? "ev")
+    let fnl ← pairsOfJson (← j.getObjVal? "fn")
+    let clsl ← (← (← j.getObjVal? "cls").getArr?).toList.mapM strOfJson
+    let attrl ← pairsOfJson (← j.getObjVal? "attr")
+    let r : Reg := { fn := fun n e => fnl.contains (n, e), cls := fun n => clsl.contains n,
+                     attr := fun n a => attrl.contains (n, a) }
+    let res := resolve k r ns ev
+    let reserved := (reservedOf k).contains ev
+    let spec := table reserved (r.fn ns ev) (r.fn ns star) (r.fn star ev) (r.fn star star)
+      (r.cls ns) (r.cls star) (r.hasMethod ns ev) (r.hasMethod star ev)
+    pure ((), Json.mkObj [("model", resToJson ns ev res), ("spec", resToJson ns ev spec),
+      ("method", strToJson (methodName ev)), ("reserved", Json.bool reserved)])
+  else if op == "reserved" then
+    let k ← kindOfString (← (← j.getObjVal? "kind").getStr?)
+    pure ((), Json.arr ((reservedOf k).map strToJson).toArray)
+  else throw s!"unknown op {op}"
 
 def main : IO Unit := lineLoop () step
 
